@@ -40,6 +40,29 @@ def run(ctx):
     # ---- C11.1 nothing on the success path waits for an answer
     n = 0
     memo = {}
+    # new_request as the connection instantiates it, judged on its abstract paths: the calls and drops of every path that returns Ok, with
+    # what is known about the dropped values (a slot that is destroyed while it holds `None` runs no destructor)
+    insts = [i for i in facts.instances_of(nr.id) if not i["generic"] and "SequentialReader<" in i["name"]]
+    ctx.require(len(insts) == 1, "C11.1: connection instance of new_request")
+    import inline
+    import queue_rules as Q
+    nri = inline.inlined(facts, nr.id, inst=insts[0], stop=lambda d: facts.fns[d].rec.get("local") and not FM.same(d), extern_ok=Q.std_small)
+    nr_eff = set()
+    n_ok = 0
+    cut = False
+    for p in absint.Explorer(nri, max_paths=200000, max_visits=FM.max_visits).run(0, None):
+        # (a path cut at the loop bound is kept: what lies beyond it are further rounds of the same loop and the continuations other paths took)
+        if p.end[0] != "cut" and not (p.end[0] == "return" and p.ret()[0] == "agg" and p.ret()[2] == "Ok"):
+            continue
+        n_ok += p.end[0] == "return"
+        for e in p.events:
+            if e[1] not in ("call", "drop") or nri.blocks[e[0]]["cleanup"]:
+                continue
+            if e[1] == "drop" and e[4] is not None and e[4][0] == "none":
+                continue
+            nr_eff |= facts.effects_at(nri, e[0])
+    if n_ok:
+        memo[insts[0]["id"]] = frozenset(nr_eff)
     def judge(f, key, bb):
         t = f.blocks[bb].get("inl_call") or f.term(bb)
         eff = set()
@@ -88,8 +111,6 @@ def run(ctx):
         judge(g, PM.read_def, bb)
     ctx.floor("C11.1 calls on the parser's success path", n, 25)
     # new_request (connection instance) as a whole
-    insts = [i for i in facts.instances_of(nr.id) if not i["generic"] and "SequentialReader<" in i["name"]]
-    ctx.require(len(insts) == 1, "C11.1: connection instance of new_request")
     eff = shared.success_effects(facts, insts[0]["id"], memo) & FORBIDDEN
     ctx.ob("C11.1", "%s|no-writer-wait" % nr.id, "successfully building a Request never touches the response writer it is given", not eff, "%s:%d" % (nr.file, nr.line), None if not eff else str(sorted(eff)))
 
